@@ -294,6 +294,50 @@ func cmpProj(dec, v *tref.Val, S, T *gen.Type, o c11opts) string {
 	return ""
 }
 
+// renumSchema renders sc as a target schema in which every field named in skip is either left out or - with
+// probability 1/2 - kept under its name but with a different, unused number: the projection is by field NUMBER, so
+// such a field must stay empty in the output just as if it had been left out.  Returns the text and the count of
+// renumbered fields.
+func renumSchema(r *h.Rand, sc *gen.PSchema, skip map[protoreflect.FullName]bool) (string, int) {
+	var saved []func()
+	renum := 0
+	var rec func(ms []*gen.PMsg)
+	rec = func(ms []*gen.PMsg) {
+		for _, m := range ms {
+			m := m
+			orig := m.Fields
+			usedNums := map[int32]bool{}
+			for _, f := range orig {
+				usedNums[f.Num] = true
+			}
+			var keep []*gen.PField
+			for i, f := range orig {
+				if !skip[protoreflect.FullName(m.FullName()+"."+f.Name)] {
+					keep = append(keep, f)
+					continue
+				}
+				nn := int32(20000 + i)
+				if r.Bool() && !usedNums[nn] {
+					cp := *f
+					cp.Num = nn
+					usedNums[nn] = true
+					keep = append(keep, &cp)
+					renum++
+				}
+			}
+			m.Fields = keep
+			saved = append(saved, func() { m.Fields = orig })
+			rec(m.Nested)
+		}
+	}
+	rec(sc.Msgs)
+	text := sc.Proto()
+	for _, f := range saved {
+		f()
+	}
+	return text, renum
+}
+
 func runC11(c *h.Ctx) {
 	c.Run("thrift-cut", c.N(6000, 150000), func(cs *h.Case) {
 		sc := gen.GenSchema(cs.R, gen.Cfg{MaxDepth: 3, MaxFields: 6, StructKeys: cs.R.Chance(40), BigIDs: true, Recursive: true, Requiredness: cs.R.Bool()})
@@ -390,8 +434,13 @@ func runC11(c *h.Ctx) {
 		identical := cs.R.Chance(15)
 		srcText, skipS := readerSchema(cs.R, sc)
 		tgtText, skipT := srcText, skipS
+		renumbered := 0
 		if !identical {
 			tgtText, skipT = readerSchema(cs.R, sc)
+			if cs.R.Bool() {
+				// same field sets by number, but some of the left-out fields reappear under another number
+				tgtText, renumbered = renumSchema(cs.R, sc, skipT)
+			}
 		}
 		cs.Info("source-proto", srcText)
 		cs.Info("target-proto", tgtText)
@@ -442,6 +491,9 @@ func runC11(c *h.Ctx) {
 			return
 		}
 		cs.Cover("pcut_ok")
+		if renumbered > 0 {
+			cs.Cover("pcut_target_with_renumbered_names_ok")
+		}
 		if identical {
 			cs.Cover("pcut_identical_ok")
 		}
